@@ -197,6 +197,8 @@ class DocGen:
         # the same response name are the same field call (conflicts then come from type shapes only)
         self.consistent = rng.random() < 0.45
         self.cmap = {}
+        # forwarding-only fragments: a body made only of spreads (also inside inline fragments)
+        self.p_forward = rng.choice([0.0, 0.15, 0.4]) if nfrags >= 2 else 0.0
 
     def selset(self, tname, depth, lo=1, hi=4):
         items = [self.selection(tname, depth) for _ in range(self.rng.randint(lo, hi))]
@@ -252,8 +254,29 @@ class DocGen:
             sub = " " + self.selset(named, depth - 1, 1, 3)
         return f"{alias}{name}{args}{d}{sub}"
 
+    def forwarding_body(self, targets, tname):
+        """A selection set consisting solely of fragment spreads, possibly wrapped in inline fragments
+        that again contain only spreads."""
+        rng = self.rng
+        items = ["..." + t for t in targets]
+        rng.shuffle(items)
+        r = rng.random()
+        if r < 0.25:
+            tc = rng.choice(["", " on " + tname, " on " + rng.choice(self.info.composites + ["Query"])])
+            return "{ ..." + tc + " { " + " ".join(items) + " } }"
+        if r < 0.45 and len(items) >= 2:
+            tc = rng.choice(["", " on " + tname])
+            return "{ " + items[0] + " ..." + tc + " { " + " ".join(items[1:]) + " } }"
+        return "{ " + " ".join(items) + " }"
+
     def fragment(self, name, depth):
         t = self.rng.choice(self.info.composites + ["Query"])
+        if self.rng.random() < self.p_forward:
+            others = [f for f in self.frags if f != name] or self.frags
+            targets = self.rng.sample(others, self.rng.randint(1, min(3, len(others))))
+            if self.rng.random() < 0.15:
+                targets.append(name)  # cyclic forwarding
+            return f"fragment {name} on {t} " + self.forwarding_body(targets, t)
         return f"fragment {name} on {t} " + self.selset(t, depth)
 
     def document(self, depth=3):
@@ -301,6 +324,62 @@ def equal_subselection_document(rng, info):
     holder = rng.choice(info.composites).lower()
     alias = rng.choice(["x: ", ""])
     return f"{{ {holder} {{ ... on {oi} {{ {alias}self {sub} }} ... on {oj} {{ {alias}self {sub} }} }} }}"
+
+
+def forwarding_document(rng, info, g):
+    """Two leaf fragments with the same response name, at least one of them reachable only through 1-3
+    levels of pure forwarding fragments (bodies made only of spreads, also inside inline fragments, also
+    cyclic), met on the fragment-vs-fragment path (two spreads of one set; spreads in the sub-selections
+    of two merged fields) or on the fields-vs-fragment path."""
+    if not info.objects:
+        return None
+    o = rng.choice(info.objects)
+    fs = info.fields[o]
+    leaf = [n for n in fs if fs[n][1] not in info.fields]
+    if not leaf:
+        return None
+    a = rng.choice(leaf)
+    b = rng.choice(leaf) if rng.random() < 0.75 else a
+    arg0, arg1 = "", ""
+    if a == b and rng.random() < 0.5:
+        arg0, arg1 = rng.choice([("(x: 1)", "(x: 2)"), ("(x: $v)", "(x: $w)"), ("(x: 1)", ""), ("(x: 1)", "(x: 1)")])
+    defs = {"L0": f"{{ x: {a}{arg0} }}", "L1": f"{{ x: {b}{arg1} }}"}
+    b = b + arg1
+
+    def chain(side, leafname):
+        k = rng.choice([0, 1, 1, 2, 3]) if side else rng.choice([1, 1, 2, 3])
+        names = [f"W{side}{i}" for i in range(k)]
+        for i, n in enumerate(names):
+            targets = [names[i + 1] if i + 1 < k else leafname]
+            if rng.random() < 0.25:
+                targets.append(rng.choice(names))          # cyclic forwarding (also self)
+            if rng.random() < 0.15:
+                targets.append(f"W{1 - side}0")             # cross link (possibly undefined: then out of fragment)
+            defs[n] = g.forwarding_body(targets, o)
+        return names[0] if names else leafname
+    top0, top1 = chain(0, "L0"), chain(1, "L1")
+    if "W10" not in defs and any("W10" in v for v in defs.values()):
+        defs["W10"] = g.forwarding_body(["L1"], o)   # target of a cross link
+    s0, s1 = ("..." + top0, "..." + top1) if rng.random() < 0.5 else ("..." + top1, "..." + top0)
+    layout = rng.randrange(6)
+    if layout == 0:      # fragment vs fragment inside one selection set
+        inner = f"{s0} {s1}"
+    elif layout == 1:    # spreads in the sub-selections of two merged fields
+        inner = f"y: self {{ {s0} }} y: self {{ {s1} }}"
+    elif layout == 2:    # fields vs forwarding fragment
+        inner = f"x: {b} ...{top0}" if rng.random() < 0.5 else f"...{top0} x: {b}"
+    elif layout == 3:    # fields vs forwarding fragment through sub-selections
+        inner = f"y: self {{ x: {b} }} y: self {{ ...{top0} }}"
+    elif layout == 4:    # both spreads inside a forwarding root fragment
+        defs["R"] = g.forwarding_body([top0, top1], o)
+        inner = "...R"
+    else:                # inline fragments that contain only spreads
+        inner = f"... {{ {s0} }} ... on {o} {{ {s1} }}"
+    holder = rng.choice(info.composites).lower()
+    parts = [f"{{ {holder} {{ ... on {o} {{ {inner} }} }} }}"]
+    parts += [f"fragment {n} on {o} {body}" for n, body in defs.items()]
+    rng.shuffle(parts)
+    return "\n".join(parts)
 
 
 def template_document(rng, info, g):
@@ -875,7 +954,9 @@ def run(tier):
     ck.rule = ("generated valid schemas (2-4 objects, 0-2 interfaces, 0-2 unions, fields with list/non-null wrapped leaves and "
                "composites, same field name with equal or different types across types) x type-directed documents: aliases from "
                "a 2-5 name pool (collisions on purpose), __typename, inline fragments with/without type condition, 0-4 named "
-               "fragments spread anywhere (cyclic and mutually recursive spreads included), arguments from a pool with literals, "
+               "fragments spread anywhere (cyclic and mutually recursive spreads included; forwarding-only fragments made solely of "
+               "spreads, 1-3 levels, also inside inline fragments and cyclic, on the fragment-vs-fragment and fields-vs-fragment "
+               "paths), arguments from a pool with literals, "
                "variables, input objects in permuted key order, directives; plus templates that reach the same two fragments under "
                "mutually exclusive and non-exclusive parents in both visiting orders; plus untypable mutants (skipped, counted, "
                "termination still checked). Compared: validate(schema, doc, [OverlappingFieldsCanBeMergedRule]) != [] (under a "
@@ -906,6 +987,12 @@ def run(tier):
                 text = typename_document(rng, info) or g.document(2)
             elif j == 8:
                 text = equal_subselection_document(rng, info) or g.document(2)
+            elif j % 6 == 4:
+                text = forwarding_document(rng, info, g)
+                if text is None:
+                    text = g.document(2)
+                else:
+                    ck.count("forwarding_documents")
             elif j % 3 == 2 and nfr >= 2:
                 text = template_document(rng, info, g)
                 if text is None:
